@@ -154,7 +154,7 @@ def opEvents : Op → List Ev
   | .resize n => [.requested n]
   | .settings d n => (match d with | some d => [.settings d] | none => []) ++ (match n with | some n => [.requested n] | none => [])
   | .drain => [.drainReq]
-  | .release n => [.requested n]
+  | .release n => [.released n]
   | _ => []
 
 /-- feed one step of the implementation's history to the oracle; returns the newly violated clauses -/
